@@ -980,6 +980,13 @@ func (g *gen) genTx(bi int) {
 		if s.Amount == "0" {
 			s.Amount = "1"
 		}
+		if r.Chance(0.06) {
+			// a negative amount passes the message's basic validation (only zero is refused there)
+			s.Amount = []string{"-1", "-1000000", "-" + dao.String()}[r.Intn(3)]
+			if s.Amount == "-0" {
+				s.Amount = "-7"
+			}
+		}
 	case "upgrade":
 		if o, ok := g.m.P.ACL["gov/upgrade"]; ok && o >= 0 && r.Chance(0.6) {
 			s.Acct = o
